@@ -472,7 +472,7 @@ theorem pairsOf_append (xs : List Inst) (a b : List FieldC) : pairsOf xs (a ++ b
 def readFields (fs : List FieldC) (xs : List Inst) : List FieldC :=
   headerFields fs xs ++ segAs fs ++ (match segBody fs with
     | some b => [b]
-    | none => kept xs (segSlots fs))
+    | none => if bodyLabelled fs then kept xs (segSlots fs) else segSlots fs)
 
 theorem mem_headerFields {fs : List FieldC} {xs : List Inst} {f : FieldC} (h : f ∈ headerFields fs xs) :
     f ∈ fs ∧ (f.kind = .headerBody ∨ f.kind = .header ∨ f.kind = .slot) := by
@@ -487,12 +487,49 @@ theorem mem_headerFields {fs : List FieldC} {xs : List Inst} {f : FieldC} (h : f
   · have := mem_segHs (List.mem_filter.mp h).1
     exact ⟨this.1, Or.inr this.2⟩
 
+theorem readOrdinal_write (xs : List Inst) :
+    ∀ (g : List FieldC) (acc : Acc),
+      (∀ f ∈ g, f.c.dec (f.c.enc (fieldVal xs f)) = some (fieldVal xs f)) →
+      readOrdinal g acc (writeValues (withVals xs g)) = some (acc ++ pairsOf xs g) := by
+  intro g
+  induction g with
+  | nil => intro acc _; simp [withVals, writeValues, readOrdinal, pairsOf]
+  | cons f g ih =>
+    intro acc hdec
+    have hw : writeValues (withVals xs (f :: g)) = (none, f.c.enc (fieldVal xs f)) :: writeValues (withVals xs g) := by
+      simp [withVals, writeValues]
+    rw [hw]
+    unfold readOrdinal
+    simp only [hdec f (List.mem_cons_self ..)]
+    rw [ih _ (fun f' h => hdec f' (List.mem_cons_of_mem _ h))]
+    simp [pairsOf]
+
+/-- The two shapes of a standard body allowed by `assess_kind`. -/
+theorem body_shape {fs : List FieldC} (hwf : structWF fs = true) :
+    (bodyLabelled fs = true ∧ NameNodup (segSlots fs)) ∨ bodyLabelled fs = false := by
+  simp only [structWF, Bool.and_eq_true, Bool.or_eq_true] at hwf
+  by_cases hl : bodyLabelled fs = true
+  · left
+    refine ⟨hl, ?_⟩
+    rcases hwf.2 with h | h
+    · exact nameNodup_of_distinct h.2
+    · exfalso
+      unfold bodyLabelled at hl
+      simp only [Bool.and_eq_true, Bool.not_eq_true', List.isEmpty_eq_false_iff] at hl
+      cases hs : segSlots fs with
+      | nil => exact hl.1 hs
+      | cons a l =>
+        rw [hs] at h hl
+        simp only [List.all_cons, Bool.and_eq_true, Bool.not_eq_true'] at h hl
+        rw [h.1] at hl; cases hl.2.1
+  · right; simpa using hl
+
 /-- every field that is not skipped has been read, or was omitted (and then `on_absent` restores it) -/
 theorem coverage (fs : List FieldC) (xs : List Inst) (hwf : structWF fs = true)
     (hg : ∀ f ∈ fs, FieldGood (segAs fs) xs f) (f : FieldC) (hf : f ∈ fs) (hk : f.kind ≠ .skip) :
     (pairsOf xs (readFields fs xs)).has f.idx = true ∨ f.c.absent = some (fieldVal xs f) := by
   simp only [structWF, Bool.and_eq_true, decide_eq_true_eq] at hwf
-  obtain ⟨⟨⟨⟨⟨hb1, hhb1⟩, _⟩, _⟩, _⟩, _⟩ := hwf
+  obtain ⟨⟨⟨⟨hb1, hhb1⟩, _⟩, _⟩, _⟩ := hwf
   by_cases ho : f.c.omits (fieldVal xs f) = true ∧ (f.kind = .header ∨ f.kind = .slot)
   · exact Or.inr ((hg f hf).omitted hk ho.1)
   · left
@@ -526,19 +563,23 @@ theorem coverage (fs : List FieldC) (xs : List Inst) (hwf : structWF fs = true)
           cases h : segBody fs with
           | none => rfl
           | some b => exact absurd (hasBody_iff_segBody.mpr ⟨b, h⟩) hb
-        have := hkept _ (segSlots_complete hf hkind hb') (Or.inr hkind)
-        simp [hnone, this]
+        have hmem := segSlots_complete hf hkind hb'
+        by_cases hl : bodyLabelled fs = true
+        · have := hkept _ hmem (Or.inr hkind)
+          simp [hnone, hl, this]
+        · have hl' : bodyLabelled fs = false := by simpa using hl
+          simp [hnone, hl', hmem]
 
 theorem structDec_enc (tag : String) (fs : List FieldC) (xs : List Inst)
     (hidx : IdxNodup fs) (hwf : structWF fs = true)
     (hg : ∀ f ∈ fs, FieldGood (segAs fs) xs f) :
     structDec tag fs (structEnc tag fs xs) = some (.struct (fs.map (fieldVal xs))) := by
   have hwf0 := hwf
+  have hshape := body_shape hwf
   simp only [structWF, Bool.and_eq_true, decide_eq_true_eq] at hwf
-  obtain ⟨⟨⟨⟨⟨hb1, hhb1⟩, hnhs⟩, hnas⟩, hnsl⟩, hlab⟩ := hwf
+  obtain ⟨⟨⟨⟨hb1, hhb1⟩, hnhs⟩, hnas⟩, _⟩ := hwf
   have hnhs := nameNodup_of_distinct hnhs
   have hnas := nameNodup_of_distinct hnas
-  have hnsl := nameNodup_of_distinct hnsl
   have hhdr := readHeader_write fs xs hidx hnhs hg
   -- the attribute fields
   have hattr : ∀ more, HeadNotIn (segAs fs) more →
@@ -574,7 +615,7 @@ theorem structDec_enc (tag : String) (fs : List FieldC) (xs : List Inst)
     simp only [hhdr, hattr _ hgb.2, hbody, hgb.1]
     have : pairsOf xs (headerFields fs xs) ++ pairsOf xs (segAs fs) ++ [(b.idx, fieldVal xs b)]
         = pairsOf xs (readFields fs xs) := by
-      simp [readFields, hbody, pairsOf_append, pairsOf]
+      simp [readFields, hbody, pairsOf]
     rw [this, hfinal]
     rfl
   | none =>
@@ -584,6 +625,11 @@ theorem structDec_enc (tag : String) (fs : List FieldC) (xs : List Inst)
       | true => obtain ⟨b, hb⟩ := hasBody_iff_segBody.mp h; rw [hbody] at hb; cases hb
     have hattr0 := hattr [] (by intro n v r h; cases h)
     rw [List.append_nil] at hattr0
+    have hsdec : ∀ f ∈ segSlots fs, f.c.dec (f.c.enc (fieldVal xs f)) = some (fieldVal xs f) := by
+      intro f hf
+      have hm := mem_segSlots hf
+      apply (hg f hm.1).dec_enc
+      rw [hm.2]; decide
     have hacc : ∀ f ∈ segSlots fs,
         Acc.has (pairsOf xs (headerFields fs xs) ++ pairsOf xs (segAs fs)) f.idx = false := by
       intro f hf
@@ -592,8 +638,7 @@ theorem structDec_enc (tag : String) (fs : List FieldC) (xs : List Inst)
       apply not_has_pairsOf hidx _ hm.1
       · intro a ha e
         rcases List.mem_append.mp ha with h | h
-        · have hk := (mem_headerFields h)
-          unfold headerFields at h
+        · unfold headerFields at h
           rcases List.mem_append.mp h with h1 | h1
           · have : segHb fs = some a := by
               cases hh : segHb fs with
@@ -612,51 +657,26 @@ theorem structDec_enc (tag : String) (fs : List FieldC) (xs : List Inst)
         rcases List.mem_append.mp ha with h | h
         · exact (mem_headerFields h).1
         · exact (mem_segAs.mp h).1
-    have hslots : (if bodyLabelled fs then
-          readSlots (segSlots fs) (pairsOf xs (headerFields fs xs) ++ pairsOf xs (segAs fs))
-            (writeSlots (withVals xs (segSlots fs)))
-        else
-          readOrdinal (segSlots fs) (pairsOf xs (headerFields fs xs) ++ pairsOf xs (segAs fs))
-            (writeValues (withVals xs (segSlots fs))))
-        = some (pairsOf xs (readFields fs xs)) := by
+    unfold structDec
+    simp only [beq_self_eq_true, ↓reduceIte]
+    rcases hshape with ⟨hl, hnsl⟩ | hl
+    · have hslots := readSlots_write (segSlots fs) xs hnsl (segSlots fs) _ (fun f h => h) hsdec
+        (idxNodup_segSlots hidx) hacc
       have htarget : pairsOf xs (headerFields fs xs) ++ pairsOf xs (segAs fs) ++ pairsOf xs (kept xs (segSlots fs))
           = pairsOf xs (readFields fs xs) := by
-        simp [readFields, hbody, pairsOf_append]
-      by_cases hl : bodyLabelled fs = true
-      · simp only [hl, ↓reduceIte]
-        rw [← htarget]
-        apply readSlots_write (segSlots fs) xs hnsl (segSlots fs) _ (fun f h => h)
-        · intro f hf
-          have hm := mem_segSlots hf
-          apply (hg f hm.1).dec_enc
-          rw [hm.2]; decide
-        · exact idxNodup_segSlots hidx
-        · exact hacc
-      · have hl' : bodyLabelled fs = false := by simpa using hl
-        have hempty : segSlots fs = [] := by
-          cases hs : segSlots fs with
-          | nil => rfl
-          | cons a l =>
-            exfalso
-            have : bodyLabelled fs = true := by
-              unfold bodyLabelled
-              rw [hs] at hlab ⊢
-              simp [hlab]
-            rw [hl'] at this; cases this
-        simp only [hl', Bool.false_eq_true, ↓reduceIte]
-        rw [← htarget, hempty]
-        simp [withVals, writeValues, readOrdinal, kept, pairsOf]
-    by_cases hl : bodyLabelled fs = true
-    · simp only [hl, ↓reduceIte] at hslots ⊢
-      unfold structDec
-      simp only [beq_self_eq_true, ↓reduceIte]
+        simp [readFields, hbody, hl, pairsOf_append]
+      rw [htarget] at hslots
+      simp only [hl, ↓reduceIte]
       unfold structDecAfterTag
       simp only [hhdr, hattr0, hbody, hl, ↓reduceIte, hslots, hfinal]
-      rfl
-    · have hl' : bodyLabelled fs = false := by simpa using hl
-      simp only [hl', Bool.false_eq_true, ↓reduceIte] at hslots ⊢
-      unfold structDec
-      simp only [beq_self_eq_true, ↓reduceIte]
+      simp
+    · have hslots := readOrdinal_write xs (segSlots fs)
+        (pairsOf xs (headerFields fs xs) ++ pairsOf xs (segAs fs)) hsdec
+      have htarget : pairsOf xs (headerFields fs xs) ++ pairsOf xs (segAs fs) ++ pairsOf xs (segSlots fs)
+          = pairsOf xs (readFields fs xs) := by
+        simp [readFields, hbody, hl, pairsOf_append]
+      rw [htarget] at hslots
+      simp only [hl, Bool.false_eq_true, ↓reduceIte]
       unfold structDecAfterTag
-      simp only [hhdr, hattr0, hbody, hl', Bool.false_eq_true, ↓reduceIte, hslots, hfinal]
-      rfl
+      simp only [hhdr, hattr0, hbody, hl, Bool.false_eq_true, ↓reduceIte, hslots, hfinal]
+      simp
